@@ -22,7 +22,8 @@
      kf_cancels         D7a  "a/.."      relative path -> empty path
      kf_exposes_empty   D7c  "a/..//b"   relative path -> absolute path "/b"
      kf_exposes_colon   D7b  "a/../b:c"  "b:c" reads back as scheme b
-     kf_abs_dslash      D14  "/..//."    "//" reads back as an empty authority
+   (The fourth shape, D14 -- "/..//." became "//", read back as an empty authority -- was repaired in
+   uriNormalizeSyntaxEngine: the normal form is now "/.//", inside C09_kind_kept; see C09_kind_abs_dslash_guarded.)
    The shape D7d ("./b:c/../x" becomes "./x") is harmless here: it is covered by C09_commute. *)
 From Coq Require Import List NArith Bool String.
 From UP Require Import Base.Chars Model.Uri Model.Common Model.Resolve Model.Normalize Model.Parse Model.Recompose
@@ -132,7 +133,7 @@ Print Assumptions C09_commute_two_host_kinds_refuted.
    whose first segment contains ':'); [reads_authority u]: the host, or a path text beginning with "//" *)
 Theorem C09_kind_kept : forall R,
   scheme R = None -> is_host_set R = false -> wf R = true ->
-  kf_cancels R = false -> kf_exposes_empty R = false -> kf_exposes_colon R = false -> kf_abs_dslash R = false ->
+  kf_cancels R = false -> kf_exposes_empty R = false -> kf_exposes_colon R = false ->
   path_kind (normalize 63 R) = path_kind R
   /\ reads_scheme (normalize 63 R) = false /\ reads_authority (normalize 63 R) = false.
 Proof. exact kind_kept. Qed.
@@ -158,12 +159,17 @@ Theorem C09_kind_exposes_colon_refuted :
 Proof. exact kind_exposes_colon_refuted. Qed.
 Print Assumptions C09_kind_exposes_colon_refuted.
 
-Theorem C09_kind_abs_dslash_refuted :
-  exists R v, parsed "/..//." R /\ wf R = true /\ kf_abs_dslash R = true
-    /\ reads_authority R = false /\ reads_authority (normalize 63 R) = true
-    /\ parse (to_text (normalize 63 R)) = POk v /\ is_host_set R = false /\ is_host_set v = true.
-Proof. exact kind_abs_dslash_refuted. Qed.
-Print Assumptions C09_kind_abs_dslash_refuted.
+(* the former fourth shape (D14): the witness now satisfies the hypotheses of C09_kind_kept, its normal form is
+   "/.//" and reads back as the object held: no authority, the same segments, an absolute path *)
+Theorem C09_kind_abs_dslash_guarded :
+  exists R v, parsed "/..//." R /\ wf R = true
+    /\ kf_cancels R = false /\ kf_exposes_empty R = false /\ kf_exposes_colon R = false
+    /\ to_text (normalize 63 R) = txt "/.//"
+    /\ reads_authority R = false /\ reads_authority (normalize 63 R) = false
+    /\ parse (to_text (normalize 63 R)) = POk v /\ is_host_set v = false
+    /\ pathSegs v = pathSegs (normalize 63 R) /\ absolutePath v = true.
+Proof. exact kind_abs_dslash_guarded. Qed.
+Print Assumptions C09_kind_abs_dslash_guarded.
 
 (* ---- the hypotheses are satisfiable, the theorems say something -------------------------- *)
 (* the stale dot D7d is inside C09_commute *)
@@ -185,7 +191,7 @@ Proof. do 2 eexists. split; [vm_compute; reflexivity|]. split; [vm_compute; refl
 
 Example C09_kind_nonvacuous :
   exists R, parsed "a/../b/./c" R /\ scheme R = None /\ is_host_set R = false /\ wf R = true
-    /\ kf_cancels R = false /\ kf_exposes_empty R = false /\ kf_exposes_colon R = false /\ kf_abs_dslash R = false
+    /\ kf_cancels R = false /\ kf_exposes_empty R = false /\ kf_exposes_colon R = false
     /\ to_text (normalize 63 R) = txt "b/c" /\ path_kind R = PRelative.
 Proof. eexists. split; [vm_compute; reflexivity|]. repeat split. Qed.
 
